@@ -303,6 +303,9 @@ pub trait Be:
     fn member_count(&self) -> usize;
     /// What `delete` of the root leaves behind.
     fn deleted_root() -> Self;
+    /// An equal document (`==`) in which every array's `Vec` has spare capacity — hidden state that must
+    /// not influence any operation.
+    fn with_slack(&self) -> Self;
 
     fn is_scalar(&self) -> bool {
         self.as_arr().is_none() && !self.is_obj()
@@ -373,6 +376,18 @@ impl Be for serde_json::Value {
             _ => 0,
         }
     }
+    fn with_slack(&self) -> Self {
+        use serde_json::Value as V;
+        match self {
+            V::Array(v) => {
+                let mut w = Vec::with_capacity(v.len() + 5);
+                w.extend(v.iter().map(|c| c.with_slack()));
+                V::Array(w)
+            }
+            V::Object(m) => V::Object(m.iter().map(|(k, c)| (k.clone(), c.with_slack())).collect()),
+            other => other.clone(),
+        }
+    }
     fn deleted_root() -> Self {
         serde_json::Value::Null
     }
@@ -438,6 +453,18 @@ impl Be for toml::Value {
         match self {
             toml::Value::Table(m) => m.len(),
             _ => 0,
+        }
+    }
+    fn with_slack(&self) -> Self {
+        use toml::Value as V;
+        match self {
+            V::Array(v) => {
+                let mut w = Vec::with_capacity(v.len() + 5);
+                w.extend(v.iter().map(|c| c.with_slack()));
+                V::Array(w)
+            }
+            V::Table(m) => V::Table(m.iter().map(|(k, c)| (k.clone(), c.with_slack())).collect()),
+            other => other.clone(),
         }
     }
     fn deleted_root() -> Self {
